@@ -905,8 +905,43 @@ class ExprMixin:
                         s2.hits.add((reg, key))
                     yield "ok", pol, s2
                 continue
+            if isinstance(t, tuple) and t[0] in ("boolop", "not") and not isinstance(test, (ast.BoolOp, ast.UnaryOp)):
+                # a truth value put together elsewhere (the result of a helper: `return lo <= x < hi`): the path forks on its
+                # parts as it would on the expression written in place, so that each side knows which part decided
+                yield from self._branch_term(t, s, fx, test, text)
+                continue
             for pol in (True, False):
                 s2 = s.fork()
                 s2.conds = s2.conds + (Cond(t, pol, fx.func.file, test.lineno, text),)
                 self.assume(t, pol, s2)
                 yield "ok", pol, s2
+
+    def _branch_term(self, t, st, fx, node, text):
+        """Outcomes ('ok', polarity, state) of a compound truth term, with short-circuit order."""
+        if isinstance(t, tuple) and t[0] == "not":
+            for r, pol, s in self._branch_term(t[1], st, fx, node, text):
+                yield r, (not pol), s
+            return
+        if isinstance(t, tuple) and t[0] == "boolop":
+            is_and = t[1] == "And"
+
+            def go(i, s):
+                if i == len(t[2]):
+                    yield "ok", is_and, s
+                    return
+                for r, pol, s1 in self._branch_term(t[2][i], s, fx, node, text):
+                    if pol != is_and:
+                        yield "ok", pol, s1
+                    else:
+                        yield from go(i + 1, s1)
+            yield from go(0, st)
+            return
+        k = self.truth(t, st)
+        if k is not None:
+            yield "ok", k, st
+            return
+        for pol in (True, False):
+            s2 = st.fork()
+            s2.conds = s2.conds + (Cond(t, pol, fx.func.file, getattr(node, "lineno", 0), show(t)),)
+            self.assume(t, pol, s2)
+            yield "ok", pol, s2
